@@ -570,7 +570,11 @@ func samplesFor(a cty.Value, ra model.Range) []cty.Value {
 				cand = append(cand, bd.f, bigAdd(bd.f, 1), bigAdd(bd.f, -1))
 			}
 		}
-		if lo.has && hi.has && !lo.f.IsInf() && !hi.f.IsInf() {
+		if lo.has && hi.has && !lo.f.IsInf() && !hi.f.IsInf() && lo.f.Cmp(hi.f) != 0 {
+			// (not for a one-point range: the "midpoint" would be the bound itself held at 600 bits, a number
+			// whose shortest decimal text differs from the bound's, i.e. a question for known finding F-47 and not
+			// for the codec, which may replace a bound by a number EQUAL to it: false alarm at seed 2 once the
+			// shared pool had 53-bit numbers outside the float64 range, which travel as 17-digit text)
 			mid := new(big.Float).SetPrec(600).Add(lo.f, hi.f)
 			mid.Quo(mid, big.NewFloat(2))
 			cand = append(cand, mid)
